@@ -661,6 +661,11 @@ func runRow(p *pki, row Row) (res Result) {
 	var contacts []string
 	for i := 0; i < nContacts; i++ {
 		u := uuidFrom(rnd)
+		if (row.Draw+i)%2 == 0 {
+			// a contact point is whatever string the metadata service hands out: not necessarily a UUID
+			contacts = append(contacts, fmt.Sprintf("node-%d-%x.db.example.test", i, u[:3]))
+			continue
+		}
 		contacts = append(contacts, u.String())
 	}
 	peerID := uuidFrom(rnd)
